@@ -793,6 +793,9 @@ def time_and_missing(repo, rep):
 
 
 def run(repo, rep, tier):
+    rep.rule("R-C11-25", "the Octopus row format has floating-point conversions only (an integer conversion truncates real-valued direction labels)")
+    from .round7b import real_columns_not_truncated
+    real_columns_not_truncated(repo, rep, "R-C11-25")
     rep.rule("R-C11-24", "(shared with C12) the readers' converters map the stored density linearly and unconditionally: no value mask (exact zeros would come back as NaN), "
                          "no conversion step guarded by metadata")
     from .round7b import converters_unconditional_linear
